@@ -66,12 +66,12 @@ Proof. destruct (Z.ltb_spec m (l + n)), (Z.ltb_spec (m - l) n); lia. Qed.
 Lemma active_spec_b_nil st sun now : active_spec_b [] st sun now = true.
 Proof. reflexivity. Qed.
 
-Lemma lg_step_spec cfg g st sun last tbl o : all_off cfg -> occ_ok o ->
-  fst (lg_step cfg g st sun (last, tbl) o) = fst (sp_step g st sun last o) /\
-  fst (snd (lg_step cfg g st sun (last, tbl) o)) = snd (sp_step g st sun last o).
+Lemma lg_core_spec cfg g st sun last tbl o : all_off cfg -> occ_ok o ->
+  fst (lg_core cfg g st sun (last, tbl) o) = fst (sp_step g st sun last o) /\
+  fst (snd (lg_core cfg g st sun (last, tbl) o)) = snd (sp_step g st sun last o).
 Proof.
-  intros (_ & _ & H71) Ho. destruct consts_hold as [Hl _].
-  unfold lg_step, sp_step, guards_spec, hold_of.
+  intros (_ & _ & H71 & _) Ho. destruct consts_hold as [Hl _].
+  unfold lg_core, sp_step, guards_spec, hold_of.
   destruct (is_direct o); [split; reflexivity|].
   assert (Hsa : forall e, fst (sa_check cfg e tbl o) = state_active_spec e o) by (intros e; apply sa_check_off; assumption).
   destruct (g_sa g) as [e|].
@@ -90,13 +90,27 @@ Proof.
       rewrite Hl; cbn [cmpZ]; rewrite hold_cmp_lt; destruct (o_mono o - l <? n); split; reflexivity.
 Qed.
 
-Lemma legacy_run cfg g st sun : all_off cfg -> forall occs last tbl, Forall occ_ok occs ->
-  run (lg_step cfg g st sun) (last, tbl) occs = run (sp_step g st sun) last occs.
+(* the TrigInfo plumbing: with conformant switches the function-wide reference is what counts *)
+Lemma lg_step_spec cfg g st sun glast plast tbls o : all_off cfg -> occ_ok o ->
+  fst (lg_step cfg g st sun (glast, plast, tbls) o) = fst (sp_step g st sun glast o) /\
+  fst (fst (snd (lg_step cfg g st sun (glast, plast, tbls) o))) = snd (sp_step g st sun glast o).
 Proof.
-  intros Hc. induction occs as [|o r IH]; intros last tbl Hok; cbn [run]; [reflexivity|].
+  intros Hc Ho. pose proof Hc as (_ & _ & _ & H72). unfold lg_step.
+  destruct (is_direct o) eqn:Ed.
+  - unfold sp_step. rewrite Ed. split; reflexivity.
+  - rewrite H72.
+    destruct (lg_core_spec cfg g st sun glast (match aget tbls (o_grp o) with Some t => t | None => [] end) o Hc Ho) as [E1 E2].
+    destruct (lg_core cfg g st sun (glast, match aget tbls (o_grp o) with Some t => t | None => [] end) o) as [a [l' t']].
+    cbn [fst snd] in *. split; assumption.
+Qed.
+
+Lemma legacy_run cfg g st sun : all_off cfg -> forall occs glast plast tbls, Forall occ_ok occs ->
+  run (lg_step cfg g st sun) (glast, plast, tbls) occs = run (sp_step g st sun) glast occs.
+Proof.
+  intros Hc. induction occs as [|o r IH]; intros glast plast tbls Hok; cbn [run]; [reflexivity|].
   inversion Hok as [|? ? Ho Hr]; subst.
-  destruct (lg_step_spec cfg g st sun last tbl o Hc Ho) as [E1 E2].
-  destruct (lg_step cfg g st sun (last, tbl) o) as [a [l' t']], (sp_step g st sun last o) as [b l2].
+  destruct (lg_step_spec cfg g st sun glast plast tbls o Hc Ho) as [E1 E2].
+  destruct (lg_step cfg g st sun (glast, plast, tbls) o) as [a [[l' p'] t']], (sp_step g st sun glast o) as [b l2].
   cbn [fst snd] in E1, E2. subst. f_equal. apply IH. assumption.
 Qed.
 
@@ -150,7 +164,7 @@ Lemma nw_step_spec cfg g st sun sp last tbl o : all_off cfg -> occ_ok o -> 0 < o
   fst (nw_step cfg g st sun (last, tbl) o) = fst (sp_step g st sun sp o) /\
   Rn g (snd (sp_step g st sun sp o)) (fst (snd (nw_step cfg g st sun (last, tbl) o))).
 Proof.
-  intros (H15 & H70 & H71) Ho Hpos Hh Hle HR.
+  intros (H15 & H70 & H71 & _) Ho Hpos Hh Hle HR.
   unfold nw_step, sp_step.
   destruct (is_direct o); [split; [reflexivity|exact HR]|].
   assert (Hsa : forall e t, fst (sa_check cfg e t o) = state_active_spec e o) by (intros e t; apply sa_check_off; assumption).
@@ -216,7 +230,7 @@ Proof.
 Qed.
 
 (* the hypotheses are satisfiable by a non-trivial instance *)
-Definition ex_occ (k : okind) (mono wall : Z) (y : option N) : occ := mk_occ k mono wall [] [(1%N, y)] None y.
+Definition ex_occ (k : okind) (mono wall : Z) (y : option N) : occ := mk_occ k 0 mono wall [] [(1%N, y)] None y.
 Example pipeline_hyps_inhabited :
   let occs := [ex_occ KEvent 1048576 1709553601000000 (Some 0%N); ex_occ KState 2097152 1709553602000000 (Some 1%N)] in
   let g := mk_guards (Some (SEq 1 1)) (Some [(false, daily 0 (DAY - 1))]) (Some 1048576) true in
@@ -256,7 +270,7 @@ Proof.
 Qed.
 
 Lemma lg_step_direct cfg g st sun s o : is_direct o = true -> lg_step cfg g st sun s o = (true, s).
-Proof. intros H. unfold lg_step. destruct s as [last tbl]. rewrite H. reflexivity. Qed.
+Proof. intros H. unfold lg_step. rewrite H. reflexivity. Qed.
 Lemma nw_step_direct cfg g st sun s o : is_direct o = true -> nw_step cfg g st sun s o = (true, s).
 Proof. intros H. unfold nw_step. rewrite H. reflexivity. Qed.
 
@@ -305,14 +319,14 @@ Theorem spec_meaning g st sun occs i o : nth_error occs i = Some o ->
 Proof. apply spec_run_meaning. Qed.
 
 (* ---------- the deviations of the unchanged code ---------- *)
-Definition only_D15 : deviations := {| d_time_active_per_arg := true; d_hold_early_update := false; d_stale_active_vars := false |}.
-Definition only_D70 : deviations := {| d_time_active_per_arg := false; d_hold_early_update := true; d_stale_active_vars := false |}.
-Definition only_D71 : deviations := {| d_time_active_per_arg := false; d_hold_early_update := false; d_stale_active_vars := true |}.
+Definition only_D15 : deviations := {| d_time_active_per_arg := true; d_hold_early_update := false; d_stale_active_vars := false; d_hold_per_trigger := false |}.
+Definition only_D70 : deviations := {| d_time_active_per_arg := false; d_hold_early_update := true; d_stale_active_vars := false; d_hold_per_trigger := false |}.
+Definition only_D71 : deviations := {| d_time_active_per_arg := false; d_hold_early_update := false; d_stale_active_vars := true; d_hold_per_trigger := false |}.
 
 (* D15: @time_active("range(10:00, 13:00)", "not range(11:30, 12:30)"), an event at 12:00:00 on 2024-03-04 *)
 Definition w15_guards : guards :=
   mk_guards None (Some [(false, daily (hms 10 0 0) (hms 13 0 0)); (true, daily (hms 11 30 0) (hms 12 30 0))]) None true.
-Definition w15_occs : list occ := [mk_occ KEvent 10485760 (D0 + hms 12 0 0) [] [] None None].
+Definition w15_occs : list occ := [mk_occ KEvent 0 10485760 (D0 + hms 12 0 0) [] [] None None].
 Lemma refuted_D15 : exists g st sun occs, Forall occ_ok occs /\ nondecr 1 occs /\ hold_nonneg g /\
   accepted_new only_D15 g st sun occs <> accepted_spec g st sun occs.
 Proof.
@@ -326,7 +340,7 @@ Qed.
 (* D70: @time_active(hold_off=5) above @state_active("pyscript.y == '1'"); y is '0' at t=1 s, '1' at t=2 s *)
 Definition w70_guards : guards := mk_guards (Some (SEq 1 1)) (Some []) (Some 5242880) true.
 Definition w70_occs : list occ :=
-  [mk_occ KEvent 1048576 (D0 + hms 12 0 1) [] [] None (Some 0%N); mk_occ KEvent 2097152 (D0 + hms 12 0 2) [] [] None (Some 1%N)].
+  [mk_occ KEvent 0 1048576 (D0 + hms 12 0 1) [] [] None (Some 0%N); mk_occ KEvent 0 2097152 (D0 + hms 12 0 2) [] [] None (Some 1%N)].
 Lemma refuted_D70 : exists g st sun occs, Forall occ_ok occs /\ nondecr 1 occs /\ hold_nonneg g /\
   accepted_new only_D70 g st sun occs <> accepted_spec g st sun occs.
 Proof.
@@ -340,7 +354,7 @@ Qed.
 (* D71: @state_active("not (pyscript.y == '1')"); y does not exist at the first occurrence and is '1' at the second *)
 Definition w71_guards : guards := mk_guards (Some (SNot (SEq 1 1))) None None false.
 Definition w71_occs : list occ :=
-  [mk_occ KEvent 1048576 (D0 + hms 12 0 1) [] [] None None; mk_occ KEvent 3145728 (D0 + hms 12 0 3) [] [] None (Some 1%N)].
+  [mk_occ KEvent 0 1048576 (D0 + hms 12 0 1) [] [] None None; mk_occ KEvent 0 3145728 (D0 + hms 12 0 3) [] [] None (Some 1%N)].
 Lemma refuted_D71 : exists g st sun occs, Forall occ_ok occs /\ nondecr 1 occs /\ hold_nonneg g /\
   accepted_legacy only_D71 g st sun occs <> accepted_spec g st sun occs /\
   accepted_new only_D71 g st sun occs <> accepted_spec g st sun occs.
@@ -350,6 +364,23 @@ Proof.
   - cbn; lia.
   - intros n E. discriminate.
   - vm_compute. discriminate.
+  - vm_compute. discriminate.
+Qed.
+
+(* D72 (legacy): @time_active(hold_off=5) with two @event_trigger decorators; the second trigger occurs 1 s after an
+   accepted occurrence of the first *)
+Definition only_D72 : deviations :=
+  {| d_time_active_per_arg := false; d_hold_early_update := false; d_stale_active_vars := false; d_hold_per_trigger := true |}.
+Definition w72_guards : guards := mk_guards None (Some []) (Some 5242880) true.
+Definition w72_occs : list occ :=
+  [mk_occ KEvent 0 1048576 (D0 + hms 12 0 1) [] [] None None; mk_occ KEvent 1 2097152 (D0 + hms 12 0 2) [] [] None None].
+Lemma refuted_D72 : exists g st sun occs, Forall occ_ok occs /\ nondecr 1 occs /\ hold_nonneg g /\
+  accepted_legacy only_D72 g st sun occs <> accepted_spec g st sun occs.
+Proof.
+  exists w72_guards, 0, [], w72_occs. split; [|split; [|split]].
+  - repeat constructor; intros k v E; discriminate.
+  - cbn; lia.
+  - intros n E. inversion E. lia.
   - vm_compute. discriminate.
 Qed.
 
